@@ -442,6 +442,13 @@ func (p *phaser) alignAgainstRefsNT(seq Sequence, orfs []Sequence) (ph PhasedSeq
 	}
 
 	phase = (3 - nbgapstart%3) % 3
+	// Start of the first complete codon: it can not be
+	// after the end of the trimmed sequence (hit shorter
+	// than the frame shift: the codon sequence is empty)
+	codonstart := beststart + phase
+	if codonstart > bestend {
+		codonstart = bestend
+	}
 	ph = PhasedSequence{
 		Err:      nil,
 		Removed:  false,
@@ -457,10 +464,10 @@ func (p *phaser) alignAgainstRefsNT(seq Sequence, orfs []Sequence) (ph PhasedSeq
 		// --N NNN NNN => phase 1
 		// --- NNN NNN => phase 0
 		CodonSeq: NewSequence(bestseq.Name(),
-			bestseq.SequenceChar()[beststart+phase:bestend],
+			bestseq.SequenceChar()[codonstart:bestend],
 			bestseq.Comment()),
 		AaSeq: NewSequence(bestseq.Name(),
-			bestseq.SequenceChar()[beststart+phase:bestend],
+			bestseq.SequenceChar()[codonstart:bestend],
 			bestseq.Comment()),
 		Ali: bestali,
 	}
